@@ -233,11 +233,17 @@ Definition fd_exists (s : state) (fd : Z) : bool :=
   match reg s fd with Some _ => true | None => false end.
 
 (* ---- poll.c ------------------------------------------------------------------ *)
+(* if (!uv__fd_exists(loop, fd)) uv__platform_invalidate_fd(loop, fd): a watcher that
+   is still registered under the number (another handle's) keeps its batch entries and
+   its kernel registration *)
+Definition invalidate_unless_watched (s : state) (fd : Z) : state :=
+  if fd_exists s fd then s else invalidate s fd.
+
 (* uv__poll_stop *)
 Definition poll_stop (s : state) (i : nat) : state :=
   let s1 := io_stop s i ALLEV in
   let s2 := hupd s1 i (fun h => h_set_ghost (h_set_active h false) (g_req h) None) in
-  invalidate s2 (h_fd (hget s2 i)).
+  invalidate_unless_watched s2 (h_fd (hget s2 i)).
 
 (* uv_poll_start *)
 Definition poll_start (s : state) (i : nat) (pevents : mask) : state * Z :=
@@ -450,7 +456,8 @@ Definition cb_pre (s : state) (i : nat) (events : mask) (efd : Z) (rep : mask) :
   | KPoll =>
     if m_err events && negb (m_pri events) then
       let s1 := io_stop s i ALLEV in
-      (hupd s1 i (fun h => h_set_ghost (h_set_active h false) (g_req h) None),
+      let s2 := hupd s1 i (fun h => h_set_ghost (h_set_active h false) (g_req h) None) in
+      (invalidate_unless_watched s2 (h_fd h),
        ECb i UV_EBADF m0 (g_req h) efd rep (h_fd h) (g_start h) (npw s))
     else (s, ECb i 0 (mand events ALLEV) (g_req h) efd rep (h_fd h) (g_start h) (npw s))
   | KRaw => (s, ERawCb i events)
